@@ -14,7 +14,31 @@ const NAMES14: [&str; 2] = ["a", "lib-x"];
 const QUALS: [Option<&str>; 2] = [None, Some("any")];
 const VERSIONS: [Option<(&str, &str)>; 3] = [None, Some((">=", "1")), Some(("<<", "2:1.0-1"))];
 const ARCHS14: [Option<&[&str]>; 6] = [None, Some(&[]), Some(&["amd64"]), Some(&["amd64", "i386"]), Some(&["!amd64"]), Some(&["!amd64", "!i386"])];
-const PROFS: [&[&[&str]]; 4] = [&[], &[&["x"]], &[&["!x", "y"]], &[&["x"], &["!y", "z"]]];
+/// every group shape: 1..3 terms (names x, y, z in that order), every negation pattern -> 14 shapes;
+/// profile lists: none, one group (14), two groups (first from 14, second from 4 representative shapes)
+fn group_shapes() -> Vec<Vec<String>> {
+    let names = ["x", "y", "z"];
+    let mut out = vec![];
+    for n in 1..=3usize {
+        for mask in 0..(1u32 << n) {
+            out.push((0..n).map(|i| if mask & (1 << i) != 0 { format!("!{}", names[i]) } else { names[i].to_string() }).collect());
+        }
+    }
+    out
+}
+fn profs() -> Vec<Vec<Vec<String>>> {
+    let g = group_shapes();
+    let mut out: Vec<Vec<Vec<String>>> = vec![vec![]];
+    for a in &g {
+        out.push(vec![a.clone()]);
+    }
+    for a in &g {
+        for b in [&g[0], &g[1], &g[3], &g[12]] {
+            out.push(vec![a.clone(), b.clone()]);
+        }
+    }
+    out
+}
 
 #[derive(Clone, Serialize, Deserialize, PartialEq, Debug)]
 pub struct C14Case {
@@ -23,7 +47,7 @@ pub struct C14Case {
 }
 
 fn menus() -> [usize; 5] {
-    [NAMES14.len(), QUALS.len(), VERSIONS.len(), ARCHS14.len(), PROFS.len()]
+    [NAMES14.len(), QUALS.len(), VERSIONS.len(), ARCHS14.len(), profs().len()]
 }
 
 fn mk(v: &[usize; 5]) -> ly::Relation {
@@ -32,7 +56,7 @@ fn mk(v: &[usize; 5]) -> ly::Relation {
     r.archqual = QUALS[v[1]].map(|s| s.to_string());
     r.version = VERSIONS[v[2]].map(|(op, ver)| (VersionConstraint::from_str(op).unwrap(), ver.parse().unwrap()));
     r.architectures = ARCHS14[v[3]].map(|a| a.iter().map(|s| s.to_string()).collect());
-    r.profiles = PROFS[v[4]]
+    r.profiles = profs()[v[4]]
         .iter()
         .map(|g| g.iter().map(|t| BuildProfile::from_str(t).unwrap()).collect())
         .collect();
@@ -50,10 +74,10 @@ fn subset() -> Vec<[usize; 5]> {
         [0, 0, 0, 2, 0],
         [0, 0, 0, 4, 0],
         [0, 0, 0, 0, 1],
-        [0, 0, 0, 0, 2],
-        [0, 0, 0, 0, 3],
-        [1, 1, 1, 3, 3],
-        [1, 1, 2, 5, 2],
+        [0, 0, 0, 0, 5],
+        [0, 0, 0, 0, 14],
+        [1, 1, 1, 3, 20],
+        [1, 1, 2, 5, 9],
     ]
 }
 
@@ -134,7 +158,7 @@ impl Prop for C14 {
         "exploration"
     }
     fn rule(&self, _t: Tier) -> String {
-        "full product of lossy Relation values over 2 names x {no, 'any'} qualifier x {none, >= 1, << 2:1.0-1} x 6 architecture lists (None, empty, 1-2 plain, 1-2 negated) x 4 profile-group shapes (720 values), and every Relations value of <= 2 entries x <= 2 alternatives (thorough: <= 3 x <= 2) over a 12-element subset; each is printed, re-read by both readers, converted lossy->lossless->lossy and Entry<->Vec; all cases distinct; non-trivial = value with at least one optional part or more than one relation".into()
+        "full product of lossy Relation values over 2 names x {no, 'any'} qualifier x {none, >= 1, << 2:1.0-1} x 6 architecture lists (None, empty, 1-2 plain, 1-2 negated) x 71 profile lists (no group; every one-group shape of 1-3 terms with every negation pattern; two groups) (5112 values), and every Relations value of <= 2 entries x <= 2 alternatives (thorough: <= 3 x <= 2) over a 12-element subset; each is printed, re-read by both readers, converted lossy->lossless->lossy and Entry<->Vec; all cases distinct; non-trivial = value with at least one optional part or more than one relation".into()
     }
     fn bounds(&self, t: Tier) -> Value {
         json!({"single_relations": menus().iter().product::<usize>(), "subset": subset().len(), "max_entries": t.pick(2, 3), "max_alternatives": 2})
